@@ -177,8 +177,38 @@ func runC17(c *Ctx) {
 		}
 		// every append into skip of a handler name is behind ClientOnly()=true
 		feeds := map[ssa.Value]bool{}
+		// the skip list may be built inline or by an unexported helper of the package:
+		// in that case the values its returns are built from feed SubPipeline too
+		var addFeeds func(e *Expr, depth int)
+		addFeeds = func(e *Expr, depth int) {
+			exprValues(e, feeds)
+			if depth > 2 {
+				return
+			}
+			Contains(func(x *Expr) bool {
+				if x.K != ECall {
+					return false
+				}
+				cl, ok := x.V.(*ssa.Call)
+				if !ok {
+					return false
+				}
+				if h := localHelper(cl.Parent(), &cl.Call); h != nil {
+					for _, b := range h.Blocks {
+						for _, in := range b.Instrs {
+							if r, ok := in.(*ssa.Return); ok {
+								for _, rv := range r.Results {
+									addFeeds(Desc(rv), depth+1)
+								}
+							}
+						}
+					}
+				}
+				return false
+			})(e)
+		}
 		for _, in := range instrsWhere(aw, isPlainCallTo(sub)) {
-			exprValues(Desc(callArg(in, 1)), feeds)
+			addFeeds(Desc(callArg(in, 1)), 0)
 		}
 		c.MustCross("C17-R3", aw, "skip = append(skip, h.Name())", func(in ssa.Instruction) bool {
 			cl, ok := in.(*ssa.Call)
@@ -194,7 +224,16 @@ func runC17(c *Ctx) {
 		for _, in := range instrsWhere(aw, isPlainCallTo(sub)) {
 			e := Desc(callArg(in, 1))
 			key := "C17-R3|autoWire|SubPipeline arg"
-			if Contains(MethodNamed("Name"))(e) {
+			derives := Contains(MethodNamed("Name"))(e)
+			if !derives {
+				// built by a helper: one of the values feeding it is an h.Name() result
+				for v := range feeds {
+					if cl, ok := v.(*ssa.Call); ok && MethodNamed("Name")(Desc(cl)) {
+						derives = true
+					}
+				}
+			}
+			if derives {
 				c.ok("C17-R3", key, instrPos(in), "SubPipeline receives the ClientOnly skip list")
 			} else {
 				c.violation("C17-R3", key, instrPos(in), "SubPipeline argument does not derive from the ClientOnly skip list: "+trunc(e.String(), 200))
